@@ -203,10 +203,11 @@ func ReplayPath(spec Spec, path []Op) (string, error) {
 		}
 		return "", err
 	}
-	err = w.Apply(path[len(path)-1])
-	if err == nil {
-		err = sp.Check(w)
+	parentTxt := ""
+	if spec.Has("notrace") {
+		parentTxt, _ = w.StateText()
 	}
+	_, err = stepAndCheck(sp, w, path[len(path)-1], spec.Has("notrace"), parentTxt)
 	if err != nil {
 		if v, ok := err.(*Violation); ok {
 			return v.Msg, nil
